@@ -129,9 +129,24 @@ def check(ctx):
     rsd = bm.func("random_state_data_python")
     ok = not [c for c in calls(rsd) if call_name(c) in ("np.random.default_rng", "Random", "random.Random") and not c.args]
     ctx.ob("EFFECT.seeded.state-source", rsd, "state generators are always constructed from random_state", ok)
+    # ---------------- the sampling steps never hand out or mutate the bag's own partition lists
+    rnd = model.module(RND)
+    smp = rnd.func("_sample_map_partitions")
+    swr = rnd.func("_sample_with_replacement_map_partitions")
+    for f_ in (smp, swr):
+        pname = f_.args.args[0].arg
+        leaks = [r for r in returns(f_) if r.value is not None and any(isinstance(e, ast.Name) and e.id == pname for e in (r.value.elts if isinstance(r.value, ast.Tuple) else [r.value]))]
+        ctx.ob("EFFECT.no-alias.map", f_, f"{f_.name} returns a reservoir it built, never the partition `{pname}` itself", not leaks, "" if not leaks else "the partition list itself is returned: the reduce step extends it in place and the bag's data grows")
+    sr_ = rnd.func("_sample_reduce")
+    acc = [a for a in walk_no_nested(sr_) if isinstance(a, ast.Assign) and unparse(a.targets[0]) == "s"]
+    loopvars = {x.id for l in walk_no_nested(sr_) if isinstance(l, ast.For) for x in ast.walk(l.target) if isinstance(x, ast.Name)} | {t.id for a in walk_no_nested(sr_) if isinstance(a, ast.Assign) for t_ in a.targets for t in ast.walk(t_) if isinstance(t, ast.Name) and any(isinstance(v, ast.Name) and v.id == "i" for v in ast.walk(a.value))}
+    bad = [a for a in acc if isinstance(a.value, ast.Name) and a.value.id in loopvars]
+    ok = bool(acc) and not bad and any(isinstance(a.value, ast.List) and not a.value.elts for a in acc)
+    ctx.ob("EFFECT.no-alias.reduce", sr_, "_sample_reduce accumulates into its own fresh list (s = []), never into one of the incoming reservoirs", ok, "" if ok else f"`{unparse(bad[0]) if bad else 's'}` aliases an incoming reservoir, which is then extended in place")
 
 
 VARIANTS = [
+    (RND, "        s.extend(s_i)\n", "        if s:\n            s.extend(s_i)\n        else:\n            s = s_i\n", "EFFECT.no-alias.reduce"),
     (RND, "    if k == 0:\n        # Nothing to sample; only the length of the stream is needed\n        return reservoir, sum(1 for _ in stream)\n", "", "ABS.k-zero.division"),
     (RND, "    if k == 0:\n        # Nothing to sample; only the length of the stream is needed\n        return [], sum(1 for _ in stream)\n", "", "ABS.k-zero.extremum"),
     (RND, "    if k < 0:\n        raise ValueError(\"Cannot take a negative number of samples\")\n", "", "ABS.k-negative"),
